@@ -271,7 +271,8 @@ class DefaultPredictionStrategy(object):
             observed = settings.observation_nan_policy._get_observed(
                 self.train_labels, torch.Size((self.train_labels.shape[-1],))
             )
-            mean_cache = torch.full_like(self.train_labels, torch.nan)
+            # (the solution has the batch shape of the model, which the shared training targets may not have)
+            mean_cache = torch.full_like(train_labels_offset.squeeze(-1), torch.nan)
             kernel = MaskedLinearOperator(
                 train_train_covar.evaluate_kernel(), observed.reshape(-1), observed.reshape(-1)
             )
@@ -292,7 +293,7 @@ class DefaultPredictionStrategy(object):
             kernel = kernel * kernel_mask  # Unfortunately, this makes the kernel dense at the moment.
             train_labels_offset = settings.observation_nan_policy._fill_tensor(train_labels_offset)
             mean_cache = kernel.solve(train_labels_offset).squeeze(-1)
-            mean_cache[missing] = torch.nan  # Ensure that nobody expects these values to be valid.
+            mean_cache[missing.expand_as(mean_cache)] = torch.nan  # Ensure that nobody expects these values to be valid.
         if settings.detach_test_caches.on():
             mean_cache = mean_cache.detach()
 
